@@ -439,20 +439,27 @@ impl AddAssign<Duration> for Epoch {
 impl PartialEq for Epoch {
     fn eq(&self, other: &Self) -> bool {
         if self.time_scale == other.time_scale {
-            self.duration == other.duration
+            self.duration.cmp(&other.duration) == Ordering::Equal
         } else {
             // If one of the two time scales does not include leap seconds,
             // we always convert the time scale with leap seconds into the
             // time scale that does NOT have leap seconds.
             if self.time_scale.uses_leap_seconds() != other.time_scale.uses_leap_seconds() {
                 if self.time_scale.uses_leap_seconds() {
-                    self.to_time_scale(other.time_scale).duration == other.duration
+                    self.to_time_scale(other.time_scale)
+                        .duration
+                        .cmp(&other.duration)
+                        == Ordering::Equal
                 } else {
-                    self.duration == other.to_time_scale(self.time_scale).duration
+                    self.duration
+                        .cmp(&other.to_time_scale(self.time_scale).duration)
+                        == Ordering::Equal
                 }
             } else {
                 // Otherwise it does not matter
-                self.duration == other.to_time_scale(self.time_scale).duration
+                self.duration
+                    .cmp(&other.to_time_scale(self.time_scale).duration)
+                    == Ordering::Equal
             }
         }
     }
